@@ -233,17 +233,25 @@ def _run(case, ctx, sim):
             for r in rs:
                 got.append(r)
         sim.advance(case["gap"] * t)
+        # progress = page fetches started (not distinct pages: a stale answer can make the driver ask for
+        # the same page again, which is C18's business, not a missing deadline)
+        fetches = {"n": 0}
+        orig_fetch = fut.start_fetching_next_page
+
+        def counting_fetch():
+            fetches["n"] += 1
+            return orig_fetch()
+        fut.start_fetching_next_page = counting_fetch
         actor = sim.spawn(consume)
         sim.settle()
-        for _w in range(len(pages) + 1):
+        for _w in range(2 * len(pages) + 4):
             if actor.done:
                 break
-            before = len(seen_pages)
-            m0 = met["silent"] + met["late"]
+            before = fetches["n"]
             sim.advance(t + EPS)
             if actor.done:
                 break
-            if len(seen_pages) == before:
+            if fetches["n"] == before:
                 ctx.fail(["C15.unbounded", "later-page"],
                          "iteration from a client thread made no progress within timeout %s + %.3f: the fetch of page %d "
                          "has no outcome (attempts per page %r)" % (t, EPS, max(seen_pages), pos))
